@@ -47,6 +47,7 @@ def c01(ctx):
 def c06(ctx):
     ans_states(ctx, ["TypeInv", "StateInv"], "c06")
     range_hists(ctx, ["TypeInv", "StateInv", "RefAgree"], "c06")
+    rdec_cases(ctx, "c06")
     for c in RANGE_CLASSES:
         ctx.require(c)
     for c in ("enc_flush", "enc_noflush", "dec_refill", "dec_norefill", "binary_state"):
@@ -70,6 +71,22 @@ def range_hists(ctx, invs, mode, widths=None, spec_violation_is=None):
         if st["spec_violation"]:
             ctx.violation("specification invariant %s fails at W=%d S=%d:\n%s" % (st["spec_violation"], w, s, st.get("counterexample", "")),
                           {"k": "spec", "module": "MC_Range", "constants": st["constants"], "invariant": st["spec_violation"]})
+        ctx.vh("replay", mode=mode, infile=cases)
+
+
+# (W, S, MaxData, MaxSyms, PSet)
+RDEC_QUICK = [(2, 4, 4, 2, "{1,2}"), (2, 6, 4, 2, "{1,2}"), (3, 6, 3, 2, "{1,3}")]
+RDEC_THOROUGH = [(2, 4, 5, 3, "{1,2}"), (2, 6, 5, 3, "{1,2}"), (3, 6, 3, 2, "{1,2,3}"), (2, 8, 5, 2, "{1,2}"), (4, 8, 3, 2, "{2,4}")]
+
+
+def rdec_cases(ctx, mode):
+    for (w, s, md, ms, pset) in (RDEC_THOROUGH if ctx.tier == "thorough" else RDEC_QUICK):
+        cases = os.path.join(ctx.work, "rdec_%d_%d.ndjson" % (w, s))
+        st = ctx.tlc("MC_RangeDec", {"W": w, "S": s, "MaxData": md, "MaxSyms": ms, "PSet": pset}, invariants=["TypeInv", "Total", "NoOverflow", "Emit"],
+                     emit_to=cases, label="MC_RangeDec_%d_%d" % (w, s))
+        if st["spec_violation"]:
+            ctx.violation("specification invariant %s fails at W=%d S=%d:\n%s" % (st["spec_violation"], w, s, st.get("counterexample", "")), {"k": "spec", "module": "MC_RangeDec"})
+            continue
         ctx.vh("replay", mode=mode, infile=cases)
 
 
@@ -100,7 +117,12 @@ def c07(ctx):
 
 @prop("C09")
 def c09(ctx):
+    ans_states(ctx, ["TypeInv", "StateInv", "LawPopAfterPush"], "c09")
+    ctx.require("backend_full")
     range_hists(ctx, ["TypeInv", "StateInv"], "c09")
+    chain_cases(ctx, "c09", ["StateInv", "StepInverse"])
+    model_cases(ctx, "uniform", "c09", uniform_cfgs(ctx))
+    model_cases(ctx, "leaky", "c09", leaky_cfgs(ctx))
 
 
 @prop("C04")
@@ -139,6 +161,12 @@ def c08(ctx):
 @prop("C10")
 def c10(ctx):
     c10_ans(ctx)
+    chain_cases(ctx, "c10", ["StateInv"])
+    ctx.require("ran_out_of_data")
+    rdec_cases(ctx, "c10")
+    ctx.require("invalid_data")
+    model_cases(ctx, "leaky", "c10", leaky_cfgs(ctx))
+    model_cases(ctx, "leakybig", "c10", leakybig_cfgs(ctx))
 
 
 @prop("C12")
@@ -256,6 +284,36 @@ def bit_coders(ctx, mode):
         ctx.vh("replay", mode=mode, infile=cases)
     for c in ("word_exactly_full", "guard_in_history"):
         ctx.require(c)
+
+
+# (W, S, MaxData, MaxSyms, PSet, Binary)
+CHAIN_QUICK = [(2, 4, 3, 2, "{1,2}", "TRUE"), (2, 6, 4, 2, "{1,2}", "TRUE"), (2, 6, 4, 3, "{2}", "FALSE"), (3, 6, 3, 2, "{2,3}", "FALSE"), (2, 8, 4, 2, "{1,2}", "FALSE")]
+CHAIN_THOROUGH = [(2, 4, 4, 3, "{1,2}", "TRUE"), (2, 4, 4, 3, "{1,2}", "FALSE"), (2, 6, 5, 3, "{1,2}", "TRUE"), (2, 6, 4, 3, "{1,2}", "FALSE"),
+                  (3, 6, 3, 2, "{1,2,3}", "TRUE"), (3, 9, 4, 2, "{2,3}", "FALSE"), (2, 8, 5, 3, "{1,2}", "TRUE"), (4, 8, 3, 2, "{2,4}", "FALSE")]
+CHAIN_LAWS = ["StateInv", "RestoreSame", "RestoreSuffix", "RestoreConcat", "StepInverse"]
+
+
+def chain_cases(ctx, mode, laws=None):
+    for (w, s, md, ms, pset, binary) in (CHAIN_THOROUGH if ctx.tier == "thorough" else CHAIN_QUICK):
+        cases = os.path.join(ctx.work, "chain_%d_%d_%s.ndjson" % (w, s, binary))
+        st = ctx.tlc("MC_Chain", {"W": w, "S": s, "MaxData": md, "MaxSyms": ms, "PSet": pset, "Binary": binary}, invariants=(laws or CHAIN_LAWS) + ["Emit"],
+                     emit_to=cases, label="MC_Chain_%d_%d" % (w, s))
+        if st["spec_violation"]:
+            ctx.violation("specification law %s fails at W=%d S=%d:\n%s" % (st["spec_violation"], w, s, st.get("counterexample", "")), {"k": "spec", "module": "MC_Chain"})
+            continue
+        ctx.vh("replay", mode=mode, infile=cases)
+
+
+@prop("C13")
+def c13(ctx):
+    chain_cases(ctx, "c13")
+    for c in ("precision_change", "out_of_data", "out_of_remainders"):
+        ctx.require(c)
+
+
+@prop("C14")
+def c14(ctx):
+    chain_cases(ctx, "c14", ["StateInv", "StepInverse"])
 
 
 def symbol_cases(ctx, kind, maxlen, maxw, mode):
